@@ -119,6 +119,45 @@ class W(World):
         self.call(lambda: cls.set_buffer_capacity(before))
         self.check_backend(what="after the forced flush")
 
+    def st_enterforce(self, st):
+        """A nested buffer_backend(0) whose ENTRY forces the flush (set_buffer_capacity inside __enter__). If that flush hits a
+        conflict the entry raises: the context was then never entered, so nesting depth and capacity must be as before."""
+        cls = self.cls_of(st["family"], st["kind"])
+        if not self.backend_depth.get(cls):
+            raise Skip()
+        before_cap = cls.get_buffer_capacity()
+        mine = [r.rid for r in self.res if self.cls_of(r.family, r.kind) is cls and r.bufstate is not None]
+        memory = self.cfg["strategy"] == "memory"
+        size_positive = any(self.res[rid].bufstate["modified"] for rid in mine) if memory else bool(mine)
+        conflicting = self.conflicts(mine) if size_positive else []
+        cm = cls.buffer_backend(0)
+        res = self.call(lambda: cm.__enter__())
+        self.stat("fault_forced_flush")
+        self.check_exc(res, "backend", conflicting, "entering a nested buffer_backend(0)")
+        if size_positive:
+            for rid in mine:
+                r = self.res[rid]
+                b = r.bufstate
+                if not memory:
+                    self.settle(rid, True)
+                elif b["modified"] and not b["changed_after"]:
+                    r.disk = deep(r.model)
+                    b["modified"] = False
+                elif b["modified"]:
+                    b["modified"], b["changed_after"] = False, True
+        if isinstance(res, M.Raised):
+            self.probe("nested_enter_raised")
+            # never entered: nothing to exit; settings must be untouched
+            if cls.get_buffer_capacity() != before_cap:
+                raise Violation("capacity_not_restored", f"buffer_backend(0).__enter__ raised, yet the capacity is now {cls.get_buffer_capacity()} (was {before_cap})")
+        else:
+            res2 = self.call(lambda: cm.__exit__(None, None, None))
+            if isinstance(res2, M.Raised):
+                raise Violation("unexpected_error", f"leaving the nested buffer_backend(0) raised {res2!r}")
+            if cls.get_buffer_capacity() != before_cap:
+                raise Violation("capacity_not_restored", f"capacity {cls.get_buffer_capacity()} after the nested context, {before_cap} before")
+        self.check_backend(what="after the nested buffer_backend(0)")
+
     def st_opforce(self, st):
         """A capacity-forced flush triggered from INSIDE an operation on another file: the capacity is first set to the
         current buffer size (no flush: not smaller), then the operation's first buffered access / write pushes the size
@@ -313,6 +352,8 @@ def drive(w, rg, emit):
                 ok = False   # root clear/reset do not load first: the flush would only happen at their save (kept out for a crisp oracle)
             if st["name"] != "popitem" and ok:
                 emit({"t": "opforce", "family": cfg["family"], "kind": w.res[rid].kind, "hid": h.hid, "name": st["name"], "args": st["args"]})
+    elif cfg["forced"] and cfg["shape"] in ("backend", "nested") and rg.random() < 0.4:
+        emit({"t": "enterforce", "family": cfg["family"], "kind": G.pick(rg, kinds)})
     elif cfg["forced"]:
         emit({"t": "setcap", "family": cfg["family"], "kind": G.pick(rg, kinds), "n": 0})
         for rid in order:
